@@ -62,8 +62,10 @@ def header_coding(coding):
     return ", ".join(m.get(x.strip(), x.strip()) for x in coding.split(","))
 
 
-def wire_of(case):
-    raw = compress(case["coding"], case["payload"])
+def wire_of(case, raw=None):
+    """(raw body before framing, head, framed body); raw may be given (C13: a compressed stream cut before it is framed)"""
+    if raw is None:
+        raw = compress(case["coding"], case["payload"])
     hdrs = []
     if case["coding"] != "identity":
         hdrs.append(("Content-Encoding", header_coding(case["coding"])))
